@@ -111,6 +111,14 @@ type Step struct {
 	ArgTy  string
 	BindTy string
 	Defer  bool
+	// BindTys: types of the names bound by `%v0, %v1 := CALL` (several results); %v0 … in Pre
+	BindTys []string
+	// Assigns: the state variables (Lean names) the step assigns — needed when the step stands
+	// inside a loop, whose state is the set of assigned variables. A step without Assigns is not
+	// (nil, as opposed to empty) is not accepted inside a loop.
+	Assigns []string
+	// In Pre, `%PANIC` is "leave the function with the panic / out-of-events value" and
+	// `%RETURN{e1; e2}` is "return e1, e2" (packaged with the state) in the enclosing context.
 }
 
 // StructLit: a composite literal `&T{F1: e1, …}` / `T{…}` (key = the printed type, with the `&`)
@@ -132,6 +140,10 @@ type FnSpec struct {
 	Lean    string // Lean name of the generated definition
 	Doc     string
 	Binders string            // extra Lean binders, placed first, e.g. "(cb : Cb.Callback)"
+	// InlineInvariant: a local defined once by a pure, total expression over variables that are
+	// never assigned (`d := f(c.X, len(b))`) is substituted at its uses instead of being bound, so
+	// hoisting such a definition out of a loop (or back in) does not change the rendering.
+	InlineInvariant bool
 	// Partial: the Lean result is `Option _` even if the body neither indexes nor loops (its Steps can
 	// yield `none`)
 	Partial bool
@@ -298,6 +310,8 @@ type bodyTr struct {
 	fnResTy  string // Lean result type
 	consts   map[string]map[string]Val
 	synth    map[*ast.BadStmt]*ifNode // else-parts of a switch rewritten as an if-chain
+	inl      map[string]Val           // inlined invariant locals (FnSpec.InlineInvariant)
+	mutated  map[string]bool          // names assigned anywhere in the body other than by their one `:=`
 	hasFuel  bool                     // the function has a `for` loop with a condition: extra `fuel` parameter
 	loopN    int
 	aux      []string // auxiliary definitions (loop steps), innermost first
@@ -557,6 +571,9 @@ func (t *bodyTr) expr(e ast.Expr, sc bscope, want string) Val {
 			return Val{t.unsupported("nil"), want}
 		}
 		if ty, _, ok := sc.lookup(x.Name); ok {
+			if v, ok := t.inl[x.Name]; ok {
+				return v
+			}
 			return Val{leanLocal(x.Name), ty}
 		}
 		if v, ok := t.pkgConst(t.spec.Dir, x.Name); ok {
@@ -689,6 +706,74 @@ func (t *bodyTr) expr(e ast.Expr, sc bscope, want string) Val {
 		return Val{"(Go.slice " + b.Lean + " " + lo.Lean + " " + hi.Lean + ")", b.Ty}
 	}
 	return Val{t.unsupported("expression"), want}
+}
+
+// invariantExpr: pure, total, and built only from things that are never assigned: literals,
+// constants, FnSpec.Vals, unassigned locals / parameters, len, conversions, arithmetic and
+// comparison operators, and non-partial table functions.
+func (t *bodyTr) invariantExpr(e ast.Expr, sc bscope) bool {
+	ok := true
+	var walk func(e ast.Expr)
+	walk = func(e ast.Expr) {
+		if !ok || e == nil {
+			return
+		}
+		key := t.exprKey(e)
+		if _, isState := t.stateByKey(key); isState {
+			ok = false
+			return
+		}
+		if _, isVal := t.spec.Vals[key]; isVal {
+			return
+		}
+		switch x := e.(type) {
+		case *ast.ParenExpr:
+			walk(x.X)
+		case *ast.BasicLit:
+		case *ast.Ident:
+			if _, _, local := sc.lookup(x.Name); local && t.mutated[x.Name] {
+				ok = false
+			}
+		case *ast.SelectorExpr:
+			if id, isId := x.X.(*ast.Ident); isId {
+				if _, _, local := sc.lookup(id.Name); !local {
+					return // package constant / time unit: resolved (or rejected) by expr
+				}
+			}
+			ok = false
+		case *ast.UnaryExpr:
+			if x.Op == token.ARROW || x.Op == token.AND {
+				ok = false
+			}
+			walk(x.X)
+		case *ast.BinaryExpr:
+			walk(x.X)
+			walk(x.Y)
+		case *ast.CallExpr:
+			k := t.exprKey(x.Fun)
+			if _, eff := t.spec.Effects[k]; eff {
+				ok = false
+				return
+			}
+			if _, st := t.spec.Steps["%v := "+key]; st {
+				ok = false
+				return
+			}
+			fs := t.libFns(k)
+			isBuiltin := k == "len" || goTypeOf(x.Fun) != ""
+			if !isBuiltin && (len(fs) == 0 || fs[0].Partial) {
+				ok = false
+				return
+			}
+			for _, a := range x.Args {
+				walk(a)
+			}
+		default:
+			ok = false
+		}
+	}
+	walk(e)
+	return ok
 }
 
 // structLit renders `&T{…}` / `T{…}` listed in FnSpec.Structs
@@ -948,6 +1033,17 @@ func (t *bodyTr) call(x *ast.CallExpr, sc bscope, want string) Val {
 		}
 		return v
 	}
+	// a generated function that may panic, called inside an expression: total value + `isSome` test
+	if fs := t.libFns(key); len(fs) == 1 && fs[0].Partial && len(fs[0].Ret) == 1 {
+		if v, ret, ok := t.applyLib(key, x.Args, sc, true); ok {
+			zero := map[string]string{"int": "(0 : Int)", "bool": "false", "bytes": "([] : Bytes)", "list": "([] : List Bytes)"}[ret[0]]
+			if zero == "" {
+				return Val{t.unsupported("partial_call_type"), want}
+			}
+			t.checks = append(t.checks, t.guarded("("+v.Lean+").isSome"))
+			return Val{"(Option.getD " + v.Lean + " " + zero + ")", ret[0]}
+		}
+	}
 	// fmt.Sprintf with %d (int → decimal digits) and %s (string / []byte) verbs
 	if key == "fmt.Sprintf" && len(x.Args) >= 1 {
 		format, ok := t.literalString(x.Args[0])
@@ -1084,6 +1180,34 @@ func (t *bodyTr) deferredLines(ctx bctx, ind string, vals []string) string {
 
 // stmtKey: the key a Step is looked up under, with the statement's argument / bound identifier
 func (t *bodyTr) stmtKey(st ast.Stmt) (string, ast.Expr, *ast.Ident) {
+	k, a, b := t.stmtKeyN(st)
+	if len(b) == 1 {
+		return k, a, b[0]
+	}
+	if len(b) > 1 {
+		return "", nil, nil
+	}
+	return k, a, nil
+}
+
+// stmtText prints the few statements that may stand in a `select` clause of a Step key
+func (t *bodyTr) stmtText(st ast.Stmt) string {
+	switch x := st.(type) {
+	case *ast.ReturnStmt:
+		rs := make([]string, len(x.Results))
+		for i, r := range x.Results {
+			rs[i] = t.exprKey(r)
+		}
+		return "return " + strings.Join(rs, ", ")
+	case *ast.ExprStmt:
+		return t.exprKey(x.X)
+	}
+	return "?"
+}
+
+// stmtKeyN: like stmtKey, with all identifiers bound by `a, b := CALL`. A `select` is keyed by its
+// clauses in source order: `select <-ctx.Done() => return nil, ctx.Err() | default =>`.
+func (t *bodyTr) stmtKeyN(st ast.Stmt) (string, ast.Expr, []*ast.Ident) {
 	switch x := st.(type) {
 	case *ast.ExprStmt:
 		return t.exprKey(x.X), nil, nil
@@ -1091,11 +1215,44 @@ func (t *bodyTr) stmtKey(st ast.Stmt) (string, ast.Expr, *ast.Ident) {
 		return "defer " + t.exprKey(x.Call), nil, nil
 	case *ast.SendStmt:
 		return t.exprKey(x.Chan) + " <- %0", x.Value, nil
-	case *ast.AssignStmt:
-		if x.Tok == token.DEFINE && len(x.Lhs) == 1 && len(x.Rhs) == 1 {
-			if id, ok := x.Lhs[0].(*ast.Ident); ok {
-				return "%v := " + t.exprKey(x.Rhs[0]), nil, id
+	case *ast.SelectStmt:
+		var cls []string
+		for _, c := range x.Body.List {
+			cc, ok := c.(*ast.CommClause)
+			if !ok {
+				return "", nil, nil
 			}
+			comm := "default"
+			if cc.Comm != nil {
+				es, ok := cc.Comm.(*ast.ExprStmt)
+				if !ok {
+					return "", nil, nil
+				}
+				comm = t.exprKey(es.X)
+			}
+			var body []string
+			for _, b := range cc.Body {
+				body = append(body, t.stmtText(b))
+			}
+			cls = append(cls, strings.TrimSpace(comm+" => "+strings.Join(body, "; ")))
+		}
+		return "select " + strings.Join(cls, " | "), nil, nil
+	case *ast.AssignStmt:
+		if x.Tok == token.DEFINE && len(x.Rhs) == 1 {
+			var ids []*ast.Ident
+			var ph []string
+			for i, l := range x.Lhs {
+				id, ok := l.(*ast.Ident)
+				if !ok {
+					return "", nil, nil
+				}
+				ids = append(ids, id)
+				ph = append(ph, "%v"+strconv.Itoa(i))
+			}
+			if len(ids) == 1 {
+				return "%v := " + t.exprKey(x.Rhs[0]), nil, ids
+			}
+			return strings.Join(ph, ", ") + " := " + t.exprKey(x.Rhs[0]), nil, ids
 		}
 	}
 	return "", nil, nil
@@ -1110,7 +1267,7 @@ func (t *bodyTr) hasStep(n ast.Node) bool {
 	ast.Inspect(n, func(m ast.Node) bool {
 		switch x := m.(type) {
 		case ast.Stmt:
-			if k, _, _ := t.stmtKey(x); k != "" {
+			if k, _, _ := t.stmtKeyN(x); k != "" {
 				if _, ok := t.spec.Steps[k]; ok {
 					found = true
 				}
@@ -1183,6 +1340,15 @@ func (t *bodyTr) assigned(nodes []ast.Node, sc bscope) []string {
 	}
 	for _, n := range nodes {
 		ast.Inspect(n, func(m ast.Node) bool {
+			if st, ok := m.(ast.Stmt); ok {
+				if k, _, _ := t.stmtKeyN(st); k != "" {
+					if step, ok := t.spec.Steps[k]; ok {
+						for _, a := range step.Assigns {
+							add(a)
+						}
+					}
+				}
+			}
 			switch x := m.(type) {
 			case *ast.AssignStmt:
 				if x.Tok != token.DEFINE {
@@ -1248,12 +1414,12 @@ func (t *bodyTr) seq(stmts []ast.Stmt, sc bscope, ctx bctx, ind string) string {
 	bad := func(kind string) string {
 		return ind + "let _ := " + t.unsupported(kind) + "\n" + rest(sc, ind)
 	}
-	if key, arg, bind := t.stmtKey(st); key != "" {
+	if key, arg, binds := t.stmtKeyN(st); key != "" {
 		if step, ok := t.spec.Steps[key]; ok {
-			if ctx.brk != nil {
+			if ctx.brk != nil && step.Assigns == nil && len(step.Pre) > 0 {
 				return bad("step_inside_loop")
 			}
-			argLean, bindLean := "", ""
+			argLean := ""
 			sc2 := sc
 			if arg != nil {
 				v := t.expr(arg, sc, step.ArgTy)
@@ -1262,12 +1428,45 @@ func (t *bodyTr) seq(stmts []ast.Stmt, sc bscope, ctx bctx, ind string) string {
 				}
 				argLean = v.Lean
 			}
-			if bind != nil {
-				sc2, bindLean = t.declare(bind.Name, step.BindTy, sc)
+			tys := step.BindTys
+			if len(tys) == 0 && step.BindTy != "" {
+				tys = []string{step.BindTy}
+			}
+			bindLean := make([]string, len(binds))
+			for i, b := range binds {
+				if i >= len(tys) {
+					bindLean[i] = t.unsupported("step_binding")
+					continue
+				}
+				sc2, bindLean[i] = t.declare(b.Name, tys[i], sc2)
 			}
 			lines := make([]string, len(step.Pre))
 			for i, l := range step.Pre {
-				lines[i] = strings.ReplaceAll(strings.ReplaceAll(l, "%0", argLean), "%v", bindLean)
+				l = strings.ReplaceAll(l, "%0", argLean)
+				for j := len(bindLean) - 1; j >= 0; j-- {
+					l = strings.ReplaceAll(l, "%v"+strconv.Itoa(j), bindLean[j])
+				}
+				if len(bindLean) > 0 {
+					l = strings.ReplaceAll(l, "%v", bindLean[0])
+				}
+				l = strings.ReplaceAll(l, "%PANIC", ctx.retRaw(t.panicVal()))
+				for {
+					a := strings.Index(l, "%RETURN{")
+					if a < 0 {
+						break
+					}
+					e := strings.Index(l[a:], "}")
+					if e < 0 {
+						l = l[:a] + t.unsupported("step_template") + l[a+8:]
+						break
+					}
+					parts := strings.Split(l[a+8:a+e], ";")
+					for k := range parts {
+						parts[k] = strings.TrimSpace(parts[k])
+					}
+					l = l[:a] + ctx.retRaw(t.pack(parts)) + l[a+e+1:]
+				}
+				lines[i] = l
 			}
 			if step.Defer {
 				if sc.depth != 1 {
@@ -1449,6 +1648,21 @@ func (t *bodyTr) assign(x *ast.AssignStmt, sc bscope, ctx bctx, ind string, rest
 			return bad("assign_operator_type")
 		}
 		return t.flush(ctx, ind) + fmt.Sprintf("%slet %s := %s\n", ind, ln, v.Lean) + rest(sc, ind)
+	}
+	// loop-invariant definition: substituted at its uses (FnSpec.InlineInvariant)
+	if t.spec.InlineInvariant && x.Tok == token.DEFINE && len(x.Lhs) == 1 && len(x.Rhs) == 1 {
+		if id, ok := x.Lhs[0].(*ast.Ident); ok && id.Name != "_" && !t.mutated[id.Name] && t.invariantExpr(x.Rhs[0], sc) {
+			saved := t.checks
+			v := t.expr(x.Rhs[0], sc, "")
+			if len(t.checks) == len(saved) && v.Ty != "" && v.Ty != "tuple" {
+				sc2, ln := t.declare(id.Name, v.Ty, sc)
+				if !strings.HasPrefix(ln, "unsupported_") {
+					t.inl[id.Name] = v
+					return fmt.Sprintf("%s-- %s := … (defined once from unassigned variables: substituted at its uses)\n", ind, ln) + rest(sc2, ind)
+				}
+			}
+			t.checks = saved
+		}
 	}
 	// targets: returns Lean pattern names and wanted types; declares new names for :=
 	targets := func(sc bscope, tys []string) (bscope, []string, bool) {
@@ -1800,9 +2014,6 @@ func (t *bodyTr) forStmt(x *ast.ForStmt, sc bscope, ctx bctx, ind string, rest f
 	bad := func(kind string) string {
 		return ind + "let _ := " + t.unsupported(kind) + "\n" + rest(sc, ind)
 	}
-	if x.Cond == nil {
-		return bad("for_without_condition")
-	}
 	if x.Init != nil {
 		// the init variable lives in its own scope around the loop
 		as, ok := x.Init.(*ast.AssignStmt)
@@ -1850,6 +2061,9 @@ func (t *bodyTr) forStmt(x *ast.ForStmt, sc bscope, ctx bctx, ind string, rest f
 	var locals []*benv
 	seen := map[string]bool{}
 	for e := sc.env; e != nil; e = e.parent {
+		if _, inlined := t.inl[e.name]; inlined {
+			continue // substituted at its uses: there is no Lean binding to pass on
+		}
 		if !seen[e.name] && !inVars[leanLocal(e.name)] {
 			seen[e.name] = true
 			locals = append(locals, e)
@@ -1871,12 +2085,14 @@ func (t *bodyTr) forStmt(x *ast.ForStmt, sc bscope, ctx bctx, ind string, rest f
 	var d strings.Builder
 	fmt.Fprintf(&d, "/-- condition test and body of loop %d of `%s` -/\n", t.loopN, t.spec.Name)
 	fmt.Fprintf(&d, "def %s_step %s : %s → Go.Ctl (%s) (%s) := fun %s =>\n", name, params, parenTy(sigmaTy), sigmaTy, t.fnResTy, tuple(vars))
-	c := t.expr(x.Cond, sc, "bool")
-	if c.Ty != "bool" {
-		c.Lean = t.unsupported("condition")
+	if x.Cond != nil {
+		c := t.expr(x.Cond, sc, "bool")
+		if c.Ty != "bool" {
+			c.Lean = t.unsupported("condition")
+		}
+		d.WriteString(t.flush(lctx, "  "))
+		fmt.Fprintf(&d, "  if !%s then .brk %s else\n", c.Lean, tuple(vars))
 	}
-	d.WriteString(t.flush(lctx, "  "))
-	fmt.Fprintf(&d, "  if !%s then .brk %s else\n", c.Lean, tuple(vars))
 	body := t.seq(x.Body.List, sc.push().push(), lctx, "  ")
 	d.WriteString(body)
 	post := "_root_.id"
@@ -1904,9 +2120,44 @@ func (t *bodyTr) forStmt(x *ast.ForStmt, sc bscope, ctx bctx, ind string, rest f
 	fmt.Fprintf(&b, "%smatch Go.forLoop (%s_step %s) %s fuel %s with\n", ind, name, args, post, tuple(vars))
 	fmt.Fprintf(&b, "%s| .ret loopRet => %s\n", ind, ctx.retRaw("loopRet"))
 	fmt.Fprintf(&b, "%s| .out => %s\n", ind, ctx.retRaw(t.panicVal()))
+	if x.Cond == nil && !breaksOut(x.Body) {
+		// `for { … }` without `break`: control never falls out of the loop
+		fmt.Fprintf(&b, "%s-- the next arm is not reachable: the loop has no condition and no break\n", ind)
+		fmt.Fprintf(&b, "%s| .fin _ => %s\n", ind, ctx.retRaw(t.panicVal()))
+		return b.String()
+	}
 	fmt.Fprintf(&b, "%s| .fin %s => (\n", ind, tuple(vars))
 	b.WriteString(strings.TrimRight(rest(sc, ind+"  "), "\n") + ")\n")
 	return b.String()
+}
+
+// breaksOut: does the loop body contain a `break` (or goto / labelled branch) that may leave this loop?
+func breaksOut(body *ast.BlockStmt) bool {
+	found := false
+	var walk func(n ast.Node, inner bool)
+	walk = func(n ast.Node, inner bool) {
+		ast.Inspect(n, func(m ast.Node) bool {
+			if m == nil || found {
+				return false
+			}
+			switch x := m.(type) {
+			case *ast.BranchStmt:
+				if x.Label != nil || x.Tok == token.GOTO || (x.Tok == token.BREAK && !inner) {
+					found = true
+				}
+			case *ast.ForStmt, *ast.RangeStmt, *ast.SwitchStmt, *ast.TypeSwitchStmt, *ast.SelectStmt:
+				if m != n {
+					walk(m, true)
+					return false
+				}
+			case *ast.FuncLit:
+				return false
+			}
+			return true
+		})
+	}
+	walk(body, false)
+	return found
 }
 
 func parenTy(s string) string {
@@ -2068,6 +2319,64 @@ func GenBody(spec *FnSpec) string {
 	for _, v := range spec.Vals {
 		for _, w := range identRe(v.Lean) {
 			t.reserved[w] = true
+		}
+	}
+	// which names are assigned other than by a single definition?
+	t.inl, t.mutated = map[string]Val{}, map[string]bool{}
+	defined := map[string]int{}
+	var root func(e ast.Expr) string
+	root = func(e ast.Expr) string {
+		switch x := e.(type) {
+		case *ast.Ident:
+			return x.Name
+		case *ast.IndexExpr:
+			return root(x.X)
+		case *ast.ParenExpr:
+			return root(x.X)
+		}
+		return ""
+	}
+	ast.Inspect(fd.Body, func(m ast.Node) bool {
+		switch x := m.(type) {
+		case *ast.AssignStmt:
+			for _, l := range x.Lhs {
+				if n := root(l); n != "" {
+					if x.Tok == token.DEFINE {
+						defined[n]++
+						if len(x.Lhs) > 1 {
+							t.mutated[n] = true // `a, err := …` may re-assign
+						}
+					} else {
+						t.mutated[n] = true
+					}
+				}
+			}
+		case *ast.IncDecStmt:
+			t.mutated[root(x.X)] = true
+		case *ast.RangeStmt:
+			for _, e := range []ast.Expr{x.Key, x.Value} {
+				if e != nil {
+					t.mutated[root(e)] = true
+				}
+			}
+		case *ast.GenDecl:
+			for _, sp := range x.Specs {
+				if vs, ok := sp.(*ast.ValueSpec); ok {
+					for _, n := range vs.Names {
+						defined[n.Name]++
+					}
+				}
+			}
+		case *ast.CallExpr:
+			if id, ok := x.Fun.(*ast.Ident); ok && id.Name == "copy" && len(x.Args) == 2 {
+				t.mutated[root(x.Args[0])] = true
+			}
+		}
+		return true
+	})
+	for n, k := range defined {
+		if k > 1 {
+			t.mutated[n] = true
 		}
 	}
 	// may it panic?
